@@ -189,8 +189,23 @@ func TestC09Exhaustive(t *testing.T) {
 	st := harn.NewStats(env, "exhaustive")
 	defer st.Flush()
 	maxLen := env.Pick(4, 5)
-	st.SetExhaustive(fmt.Sprintf("all strings of length <= %d over the 27-symbol alphabet %q", maxLen, alphabet27))
+	st.SetExhaustive(fmt.Sprintf("all strings of length <= %d over the 27-symbol alphabet %q and all strings of length <= %d over the complementary alphabet %q", maxLen, alphabet27, maxLen, alphabetB))
 	failed := false
+	// second pass: the complementary alphabet
+	enumStrings(alphabetB, maxLen, env.Shard, env.NShards, func(s string) {
+		if failed {
+			return
+		}
+		st.Eval()
+		if lexNonTrivial(s) {
+			st.NonTrivialExact(1)
+			st.SampleHashed("nontrivial-b", s, func() any { return fmt.Sprintf("%+q", s) })
+		}
+		if msg := checkLex(s); msg != "" {
+			failed = true
+			st.Violation(t, "C09", "lex", mkStrCase(s), "%+q: %s", s, msg)
+		}
+	})
 	enumStrings(alphabet27, maxLen, env.Shard, env.NShards, func(s string) {
 		if failed {
 			return
